@@ -133,7 +133,7 @@ for _p, _txt in (('C01', 'every returned block checked against mapping registry,
                  ('C02', 'per-block patterns verified at release/realloc/quiescent points, realloc/free semantics, per-class footprint bound maps<=ceil(peak/per_slab) after every operation'),
                  ('C03', 'map/unmap pairing, numUsedPages() deltas per mapping, poison shadow after every call, pool accesses to poisoned bytes reported by ASan')):
     add(_p, level='exploration',
-        rule='seeded allocate/free/deallocate/realloc histories on 13 policy configurations (aligned/unaligned map, 5 geometries, poison on/off, 3 mutex types) + all sequences of length 6 on nearly-full tiny slabs: ' + _txt,
+        rule='seeded allocate/free/deallocate/realloc histories on 16 policy configurations (aligned/unaligned map, 5 geometries, poison on/off, 3 mutex types) + all sequences of length 6 on nearly-full tiny slabs: ' + _txt,
         jobs=[job('slab', 'c01_slab.cpp', args=['--arg', 'prop=' + _p], shards={'quick': 12, 'thorough': 16}, hang_is_violation=True),
               job('slab_track_regions', 'c01_slab.cpp', defines=['-DFRG_SLAB_TRACK_REGIONS'], args=['--arg', 'prop=' + _p], tiers=('thorough',), shards={'thorough': 16}, hang_is_violation=True)]
              # C03 across threads: the controlled-scheduler driver of C05 with a poisoning policy whose callbacks are scheduling points
@@ -143,7 +143,9 @@ for _p, _txt in (('C01', 'every returned block checked against mapping registry,
         assumptions=SLAB_ASSUME)
 add('C04', level='fault_enumeration',
     rule='fixed seeded histories re-run with the i-th Policy::map attempt failing, for every i (thorough: every pair i<j<=i+12 and bursts of three), on 4 (6) configurations; all C01-C03 oracles stay armed, no pool mutex may remain held, later requests must succeed',
-    jobs=[job('slabfault', 'c01_slab.cpp', args=['--arg', 'prop=C04'], shards={'quick': 12, 'thorough': 16}, hang_is_violation=True)],
+    jobs=[job('slabfault', 'c01_slab.cpp', args=['--arg', 'prop=C04'], shards={'quick': 12, 'thorough': 16}, hang_is_violation=True),
+          # map() failing while another worker uses the same pool: the controlled-scheduler driver of C05 with fault scenarios
+          job('slab_sched_fault', 'c05_slab_sched.cpp', args=['--arg', 'prop=C04'], shards={'quick': 5, 'thorough': 8})],
     min_evaluations={'quick': 100, 'thorough': 2000},
     min_counters={'map_failures_injected': 100, 'histories_with_injected_fault': 100, 'fault_site:large-frame': 5, 'fault_site:first-slab-of-class': 5, 'fault_site:additional-slab': 5,
                   'fault_site:copying-realloc-small-to-small': 1, 'fault_site:copying-realloc-small-to-large': 1, 'fault_site:copying-realloc-large-to-larger': 1},
